@@ -24,8 +24,26 @@ use super::*;
 /// 2. This function does **not** check that every nonterminal enum
 ///    has uniquely named variants.
 /// 3. This function does **not** validate capitalization.
-pub fn assert_there_are_no_top_level_name_clashes(file: &File) -> Result<(), KikiErr> {
+pub fn assert_there_are_no_top_level_name_clashes(file: &File) -> /*@[*/(r: /*@]*/Result<(), KikiErr>/*@[*/)/*@]*/
+    //@[ C10 assert_there_are_no_top_level_name_clashes: nonterminals, terminal variants and the terminal enum name are pairwise distinct, or a real clash is reported
+    ensures match r {
+        Ok(_) => sel_terminals(file.items@).len() == 1 && defs_distinct(all_defs(file.items@, sel_terminals(file.items@)[0])),
+        Err(e) => err_truthful(*file, e),
+    },
+    //@]
+{
     let mut seen = get_defined_symbol_positions(file)?;
+    //@[ proof
+    let ghost te = sel_terminals(file.items@)[0];
+    let ghost a = nt_defs(file.items@) + term_defs(te);
+    proof {
+        assert(a.push((te.name.name@, te.name.position)) =~= all_defs(file.items@, te));
+        assert forall|e: KikiErr| #[trigger] clash_new(a, te.name.name@, te.name.position, e) implies err_truthful(*file, e) by {
+            assert(is_prefix_of(a, all_defs(file.items@, te)));
+            lemma_clash_new_in(a, all_defs(file.items@, te), te.name.name@, te.name.position, e);
+        }
+    }
+    //@]
 
     define_terminal_enum_name(&mut seen, file)?;
 
@@ -57,9 +75,51 @@ pub open spec fn seen_has(m: Map<String, ByteIndex>, x: (Seq<char>, ByteIndex)) 
 pub open spec fn define_step(m0: Map<String, ByteIndex>, m1: Map<String, ByteIndex>, r: Result<(), KikiErr>, name: Seq<char>, pos: ByteIndex) -> bool {
     forall|d: Defs| #[trigger] seen_is(m0, d) ==> match r {
         Ok(_) => seen_is(m1, d.push((name, pos))),
-        Err(e) => m1 == m0 && e is NameClash && e->NameClash_0@ == name && e->NameClash_2 == pos
-            && exists|j: int| 0 <= j < d.len() && #[trigger] d[j] == (name, e->NameClash_1),
+        Err(e) => m1 == m0 && clash_new(d, name, pos, e),
     }
+}
+/// the error reports the new definition (name, pos) together with the position of an earlier definition of the same name in d
+pub open spec fn clash_new(d: Defs, name: Seq<char>, pos: ByteIndex, e: KikiErr) -> bool {
+    e is NameClash && e->NameClash_0@ == name && e->NameClash_2 == pos
+        && exists|j: int| 0 <= j < d.len() && #[trigger] d[j] == (name, e->NameClash_1)
+}
+/// a scan that extends the definitions by ext: all recorded, or a clash among (earlier + ext) reported
+pub open spec fn defs_post(m0: Map<String, ByteIndex>, m1: Map<String, ByteIndex>, r: Result<(), KikiErr>, ext: Defs) -> bool {
+    forall|d: Defs| #[trigger] seen_is(m0, d) ==> match r {
+        Ok(_) => seen_is(m1, d + ext),
+        Err(e) => e is NameClash && clash_in(d + ext, e->NameClash_0@, e->NameClash_1, e->NameClash_2),
+    }
+}
+pub proof fn lemma_clash_new_in(d1: Defs, full: Defs, name: Seq<char>, pos: ByteIndex, e: KikiErr)
+    requires clash_new(d1, name, pos, e), is_prefix_of(d1, full), d1.len() < full.len(), full[d1.len() as int] == (name, pos)
+    ensures clash_in(full, e->NameClash_0@, e->NameClash_1, e->NameClash_2)
+{
+    let j = choose|j: int| 0 <= j < d1.len() && #[trigger] d1[j] == (name, e->NameClash_1);
+    assert(full[j] == d1[j]);
+    assert(full[d1.len() as int] == (name, pos));
+}
+pub proof fn lemma_clash_prefix(d1: Defs, full: Defs, n: Seq<char>, p: ByteIndex, q: ByteIndex)
+    requires clash_in(d1, n, p, q), is_prefix_of(d1, full)
+    ensures clash_in(full, n, p, q)
+{
+    let (i, j) = choose|i: int, j: int| 0 <= i < j < d1.len() && #[trigger] d1[i] == (n, p) && #[trigger] d1[j] == (n, q);
+    assert(full[i] == d1[i] && full[j] == d1[j]);
+}
+pub open spec fn view_set(s: Set<String>) -> Set<Seq<char>> { s.map(|k: String| k@) }
+pub proof fn lemma_view_set_insert(s: Set<String>, key: String)
+    ensures view_set(s.insert(key)) == view_set(s).insert(key@)
+{
+    assert forall|a: Seq<char>| view_set(s.insert(key)).contains(a) <==> view_set(s).insert(key@).contains(a) by {
+        if view_set(s.insert(key)).contains(a) {
+            let k = choose|k: String| s.insert(key).contains(k) && k@ == a;
+            if k != key { assert(s.contains(k)); assert(view_set(s).contains(a)); }
+        }
+        if view_set(s).insert(key@).contains(a) {
+            if a == key@ { assert(s.insert(key).contains(key)); assert(view_set(s.insert(key)).contains(a)); }
+            else { let k = choose|k: String| s.contains(k) && k@ == a; assert(s.insert(key).contains(k)); assert(view_set(s.insert(key)).contains(a)); }
+        }
+    }
+    assert(view_set(s.insert(key)) =~= view_set(s).insert(key@));
 }
 pub proof fn lemma_define_new(m0: Map<String, ByteIndex>, key: String, pos: ByteIndex)
     requires forall|k: String| #[trigger] m0.contains_key(k) ==> k@ != key@
@@ -86,15 +146,15 @@ pub proof fn lemma_define_clash(m0: Map<String, ByteIndex>, key: String, name: S
     requires m0.contains_key(key), name@ == key@
     ensures define_step(m0, m0, Err(KikiErr::NameClash(name, m0[key], pos)), key@, pos)
 {
-    assert forall|d: Defs| #[trigger] seen_is(m0, d) implies exists|j: int| 0 <= j < d.len() && #[trigger] d[j] == (key@, m0[key]) by {
+    assert forall|d: Defs| #[trigger] seen_is(m0, d) implies clash_new(d, key@, pos, KikiErr::NameClash(name, m0[key], pos)) by {
         let j = choose|j: int| 0 <= j < d.len() && d[j] == (key@, m0[key]);
     }
 }
 //@]
 
 //@[ C10 ghost view of DefinedSymbols: the two name sets, kept apart by kind
-pub open spec fn ds_nts(ds: DefinedSymbols) -> Set<Seq<char>> { ds.nonterminals@.map(|k: String| k@) }
-pub open spec fn ds_terms(ds: DefinedSymbols) -> Set<Seq<char>> { ds.terminals@.map(|k: String| k@) }
+pub open spec fn ds_nts(ds: DefinedSymbols) -> Set<Seq<char>> { view_set(ds.nonterminals@) }
+pub open spec fn ds_terms(ds: DefinedSymbols) -> Set<Seq<char>> { view_set(ds.terminals@) }
 
 pub proof fn lemma_name_in_set(s: Set<String>, name: String)
     ensures s.map(|k: String| k@).contains(name@) <==> s.contains(name)
@@ -117,11 +177,43 @@ pub proof fn lemma_name_in_set(s: Set<String>, name: String)
 /// builtins, such as `Option`.
 ///
 /// This function does **not** validate capitalization.
-pub fn get_defined_symbols(file: &File) -> Result<DefinedSymbols, KikiErr> {
+pub fn get_defined_symbols(file: &File) -> /*@[*/(r: /*@]*/Result<DefinedSymbols, KikiErr>/*@[*/)/*@]*/
+    //@[ C10 get_defined_symbols: the nonterminal names and the terminal variant names, as two separate sets (a name of one kind cannot stand in for the other)
+    ensures match r {
+        Ok(ds) => sel_terminals(file.items@).len() == 1 && ds_nts(ds) == nt_name_set(file.items@)
+                  && ds_terms(ds) == term_name_set(sel_terminals(file.items@)[0].variants@),
+        Err(e) => err_truthful(*file, e),
+    },
+    //@]
+{
     get_defined_symbol_positions(file)?;
+    //@[ proof
+    let ghost items = file.items@;
+    //@]
 
-    let mut nonterminals = HashSet::new();
-    for item in &file.items {
+    let mut nonterminals/*@[*/: HashSet<String>/*@]*/ = HashSet::new();
+    //@[ proof
+    proof { assert(view_set(nonterminals@) =~= nt_name_set(items.take(0))); }
+    //@]
+    for item in /*@[*/__vx_it: /*@]*/&file.items
+        //@[ C10 loop invariant: the set holds exactly the names of the nonterminal declarations scanned so far
+        invariant
+            items == file.items@, __vx_it.seq().len() == items.len(),
+            forall|i: int| 0 <= i < items.len() ==> *(#[trigger] __vx_it.seq()[i]) == items[i],
+            view_set(nonterminals@) == nt_name_set(items.take(__vx_it.index@)),
+        //@]
+    {
+        //@[ proof
+        let ghost k = __vx_it.index@;
+        let ghost s0 = nonterminals@;
+        proof {
+            assert(*item == items[k]);
+            lemma_nt_defs_take(items, k);
+            assert forall|key: String| item_is_nt(*item) && key@ == item_name(*item).name@ implies view_set(#[trigger] s0.insert(key)) == nt_name_set(items.take(k + 1)) by {
+                lemma_view_set_insert(s0, key);
+            }
+        }
+        //@]
         match item {
             FileItem::Struct(struct_def) => {
                 nonterminals.insert(struct_def.name.name.clone());
@@ -132,11 +224,39 @@ pub fn get_defined_symbols(file: &File) -> Result<DefinedSymbols, KikiErr> {
             FileItem::Start(_) | FileItem::Terminal(_) => {}
         }
     }
+    //@[ proof
+    proof { assert(items.take(items.len() as int) =~= items); }
+    let ghost vs = sel_terminals(items)[0].variants@;
+    //@]
 
-    let mut terminals = HashSet::new();
-    for variant in &get_unvalidated_terminal_enum(file)?.variants {
+    let mut terminals/*@[*/: HashSet<String>/*@]*/ = HashSet::new();
+    //@[ proof
+    proof { assert(view_set(terminals@) =~= term_name_set(vs.take(0))); }
+    //@]
+    for variant in /*@[*/__vx_it: /*@]*/&get_unvalidated_terminal_enum(file)?.variants
+        //@[ C10 loop invariant: the set holds exactly the names of the terminal variants scanned so far
+        invariant
+            items == file.items@, sel_terminals(items).len() == 1, vs == sel_terminals(items)[0].variants@, __vx_it.seq().len() == vs.len(),
+            forall|i: int| 0 <= i < vs.len() ==> *(#[trigger] __vx_it.seq()[i]) == vs[i],
+            view_set(terminals@) == term_name_set(vs.take(__vx_it.index@)),
+        //@]
+    {
+        //@[ proof
+        let ghost k = __vx_it.index@;
+        let ghost s0 = terminals@;
+        proof {
+            assert(*variant == vs[k]);
+            lemma_term_name_set_take(vs, k);
+            assert forall|key: String| key@ == variant.name.name@ implies view_set(#[trigger] s0.insert(key)) == term_name_set(vs.take(k + 1)) by {
+                lemma_view_set_insert(s0, key);
+            }
+        }
+        //@]
         terminals.insert(variant.name.name.to_string());
     }
+    //@[ proof
+    proof { assert(vs.take(vs.len() as int) =~= vs); }
+    //@]
 
     Ok(DefinedSymbols {
         nonterminals,
@@ -144,21 +264,98 @@ pub fn get_defined_symbols(file: &File) -> Result<DefinedSymbols, KikiErr> {
     })
 }
 
-fn get_defined_symbol_positions(file: &File) -> Result<HashMap<String, ByteIndex>, KikiErr> {
+fn get_defined_symbol_positions(file: &File) -> /*@[*/(r: /*@]*/Result<HashMap<String, ByteIndex>, KikiErr>/*@[*/)/*@]*/
+    //@[ C10 get_defined_symbol_positions: nonterminal names and terminal variant names are pairwise distinct (one namespace), or a real clash is reported
+    ensures match r {
+        Ok(seen) => sel_terminals(file.items@).len() == 1 && seen_is(seen@, nt_defs(file.items@) + term_defs(sel_terminals(file.items@)[0])),
+        Err(e) => err_truthful(*file, e),
+    },
+    //@]
+{
     let mut seen: HashMap<String, ByteIndex> = HashMap::new();
+    //@[ proof
+    let ghost nd = nt_defs(file.items@);
+    proof {
+        assert(seen_is(seen@, Seq::<(Seq<char>, ByteIndex)>::empty()));
+        assert(Seq::<(Seq<char>, ByteIndex)>::empty() + nd =~= nd);
+    }
+    //@]
 
     define_nonterminals(&mut seen, file)?;
 
     let unvalidated_terminal_enum = get_unvalidated_terminal_enum(file)?;
+    //@[ proof
+    proof {
+        let te = *unvalidated_terminal_enum;
+        assert(seen_is(seen@, nd));
+        assert forall|n: Seq<char>, p: ByteIndex, q: ByteIndex| #[trigger] clash_in(nd + term_defs(te), n, p, q) implies clash_in(all_defs(file.items@, te), n, p, q) by {
+            assert(is_prefix_of(nd + term_defs(te), all_defs(file.items@, te)));
+            lemma_clash_prefix(nd + term_defs(te), all_defs(file.items@, te), n, p, q);
+        }
+    }
+    //@]
     define_terminal_variants(&mut seen, unvalidated_terminal_enum)?;
 
     Ok(seen)
 }
 
-fn define_nonterminals(seen: &mut HashMap<String, ByteIndex>, file: &File) -> Result<(), KikiErr> {
-    for item in &file.items {
+fn define_nonterminals(seen: &mut HashMap<String, ByteIndex>, file: &File) -> /*@[*/(r: /*@]*/Result<(), KikiErr>/*@[*/)/*@]*/
+    //@[ C10 define_nonterminals: every struct and enum name is recorded, or a clash between two of them (or with an earlier definition) is reported
+    ensures defs_post(old(seen)@, final(seen)@, r, nt_defs(file.items@)),
+    //@]
+{
+    //@[ proof
+    let ghost m0 = seen@;
+    let ghost items = file.items@;
+    //@]
+    for item in /*@[*/__vx_it: /*@]*/&file.items
+        //@[ C10 loop invariant: the map stands for the earlier definitions followed by those of the items scanned so far
+        invariant
+            m0 == old(seen)@, items == file.items@, __vx_it.seq().len() == items.len(),
+            forall|i: int| 0 <= i < items.len() ==> *(#[trigger] __vx_it.seq()[i]) == items[i],
+            forall|d: Defs| #[trigger] seen_is(m0, d) ==> seen_is(seen@, d + nt_defs(items.take(__vx_it.index@))),
+        //@]
+    {
+        //@[ proof
+        let ghost k = __vx_it.index@;
+        proof {
+            assert(*item == items[k]);
+            lemma_nt_defs_take(items, k); lemma_nt_defs_prefix(items, k + 1);
+            if item_is_nt(*item) {
+                let x = (item_name(*item).name@, item_name(*item).position);
+                assert forall|d: Defs, e: KikiErr| #[trigger] clash_new(d + nt_defs(items.take(k)), x.0, x.1, e)
+                    implies clash_in(d + nt_defs(items), e->NameClash_0@, e->NameClash_1, e->NameClash_2) by {
+                    let d1 = d + nt_defs(items.take(k));
+                    let full = d + nt_defs(items);
+                    assert(nt_defs(items.take(k + 1))[nt_defs(items.take(k)).len() as int] == x);
+                    assert(is_prefix_of(d1, full)) by {
+                        assert forall|j: int| 0 <= j < d1.len() implies #[trigger] d1[j] == full[j] by {
+                            if j >= d.len() { assert(nt_defs(items.take(k))[j - d.len()] == nt_defs(items.take(k + 1))[j - d.len()]); }
+                        }
+                    }
+                    assert(full[d1.len() as int] == nt_defs(items.take(k + 1))[d1.len() - d.len()]);
+                    lemma_clash_new_in(d1, full, x.0, x.1, e);
+                }
+                let mk = seen@;
+                assert forall|m1: Map<String, ByteIndex>, r1: Result<(), KikiErr>| r1 is Err && #[trigger] define_step(mk, m1, r1, x.0, x.1) implies defs_post(m0, m1, r1, nt_defs(items)) by {
+                }
+            }
+        }
+        //@]
         define_nonterminal_if_possible(seen, item)?;
+        //@[ proof
+        proof {
+            assert forall|d: Defs| #[trigger] seen_is(m0, d) implies seen_is(seen@, d + nt_defs(items.take(k + 1))) by {
+                if item_is_nt(*item) {
+                    assert((d + nt_defs(items.take(k))).push((item_name(*item).name@, item_name(*item).position)) =~= d + nt_defs(items.take(k + 1)));
+                }
+            }
+        }
+        //@]
     }
+    //@[ proof
+    proof { assert(items.take(items.len() as int) =~= items); }
+    //@]
     Ok(())
 }
 
@@ -215,10 +412,55 @@ fn define_nonterminal(seen: &mut HashMap<String, ByteIndex>, ident: &Ident) -> /
 fn define_terminal_variants(
     seen: &mut HashMap<String, ByteIndex>,
     terminal_enum: &TerminalEnum,
-) -> Result<(), KikiErr> {
-    for variant in &terminal_enum.variants {
+) -> /*@[*/(r: /*@]*/Result<(), KikiErr>/*@[*/)/*@]*/
+    //@[ C10 define_terminal_variants: every terminal variant name is recorded, or a clash with an earlier definition (nonterminal or variant) is reported
+    ensures defs_post(old(seen)@, final(seen)@, r, term_defs(*terminal_enum)),
+    //@]
+{
+    //@[ proof
+    let ghost m0 = seen@;
+    let ghost vs = terminal_enum.variants@;
+    let ghost td = term_defs(*terminal_enum);
+    //@]
+    for variant in /*@[*/__vx_it: /*@]*/&terminal_enum.variants
+        //@[ C10 loop invariant: the map stands for the earlier definitions followed by those of the variants scanned so far
+        invariant
+            m0 == old(seen)@, vs == terminal_enum.variants@, td == term_defs(*terminal_enum), __vx_it.seq().len() == vs.len(),
+            forall|i: int| 0 <= i < vs.len() ==> *(#[trigger] __vx_it.seq()[i]) == vs[i],
+            forall|d: Defs| #[trigger] seen_is(m0, d) ==> seen_is(seen@, d + td.take(__vx_it.index@)),
+        //@]
+    {
+        //@[ proof
+        let ghost k = __vx_it.index@;
+        proof {
+            assert(*variant == vs[k]);
+            let x = (variant.name.name@, variant.name.dollarless_position);
+            assert(td[k] == x);
+            assert forall|d: Defs, e: KikiErr| #[trigger] clash_new(d + td.take(k), x.0, x.1, e)
+                implies clash_in(d + td, e->NameClash_0@, e->NameClash_1, e->NameClash_2) by {
+                let d1 = d + td.take(k);
+                let full = d + td;
+                assert(is_prefix_of(d1, full));
+                assert(full[d1.len() as int] == td[k]);
+                lemma_clash_new_in(d1, full, x.0, x.1, e);
+            }
+            let mk = seen@;
+            assert forall|m1: Map<String, ByteIndex>, r1: Result<(), KikiErr>| r1 is Err && #[trigger] define_step(mk, m1, r1, x.0, x.1) implies defs_post(m0, m1, r1, td) by {
+            }
+        }
+        //@]
         define_terminal_variant(seen, variant)?;
+        //@[ proof
+        proof {
+            assert forall|d: Defs| #[trigger] seen_is(m0, d) implies seen_is(seen@, d + td.take(k + 1)) by {
+                assert((d + td.take(k)).push(td[k]) =~= d + td.take(k + 1));
+            }
+        }
+        //@]
     }
+    //@[ proof
+    proof { assert(td.take(td.len() as int) =~= td); }
+    //@]
     Ok(())
 }
 
@@ -267,8 +509,30 @@ fn define_terminal_variant(
 fn define_terminal_enum_name(
     seen: &mut HashMap<String, ByteIndex>,
     file: &File,
-) -> Result<(), KikiErr> {
+) -> /*@[*/(r: /*@]*/Result<(), KikiErr>/*@[*/)/*@]*/
+    //@[ C10 define_terminal_enum_name: the terminal enum's own name shares the namespace of the nonterminals and terminal variants
+    ensures
+        sel_terminals(file.items@).len() != 1 ==> r is Err && err_truthful(*file, r->Err_0),
+        sel_terminals(file.items@).len() == 1 ==> define_step(old(seen)@, final(seen)@, r, sel_terminals(file.items@)[0].name.name@, sel_terminals(file.items@)[0].name.position),
+    //@]
+{
     let terminal_enum = get_unvalidated_terminal_enum(file)?;
+    //@[ proof
+    proof {
+        let m0 = seen@;
+        let id = terminal_enum.name;
+        if m0.contains_key(id.name) {
+            assert forall|n: String| n@ == id.name@ implies define_step(m0, m0, Err::<(), KikiErr>(KikiErr::NameClash(n, m0[id.name], id.position)), id.name@, id.position) by {
+                lemma_define_clash(m0, id.name, n, id.position);
+            }
+        } else {
+            assert forall|k: String| #[trigger] m0.contains_key(k) implies k@ != id.name@ by { if k@ == id.name@ { axiom_string_ext(k, id.name); } }
+            assert forall|k: String| k@ == id.name@ implies define_step(m0, m0.insert(k, id.position), Ok::<(), KikiErr>(()), id.name@, id.position) by {
+                lemma_define_new(m0, k, id.position);
+            }
+        }
+    }
+    //@]
 
     if let Some(conflicting_symbol_position) = seen.get(&terminal_enum.name.name) {
         return Err(KikiErr::NameClash(
